@@ -246,6 +246,8 @@ func runC05(c *Ctx) {
 
 	// R6b resumable reader
 	c05Resumable(c)
+	// R7 re-initialisation after a transient init failure
+	c05Init(c)
 }
 
 // failStopOK wraps failStop for single checks.
